@@ -5,12 +5,12 @@ import subprocess
 import sys
 import traceback
 
-from .core import PLAIN_PY
+from .core import PLAIN_PY, pythonpath
 
 
 def main(argv):
     if argv and argv[0] == '--replay':
-        env = dict(os.environ, PYTHONPATH='/verif', PYTHONWARNINGS='ignore')
+        env = dict(os.environ, PYTHONPATH=pythonpath(), PYTHONWARNINGS='ignore')
         return subprocess.call([PLAIN_PY, argv[1]], env=env, cwd='/verif')
     pid = argv[0].upper()
     tier = argv[1] if len(argv) > 1 else os.environ.get('VERIF_TIER', 'quick')
